@@ -97,3 +97,54 @@ pub open spec fn continue_untouched(req: HtlcAcceptedRequest, r: HtlcAcceptedRes
 //@ ensures#pred_hop_is_local [C10]
       b == (hop.src_node_id == self.params.local_pubkey)
 //@ end
+
+// ---- slices of handle_htlc (E6) ------------------------------------------------------------------
+pub open spec fn declared_total(req: HtlcAcceptedRequest, forward_msat: u64) -> u64 {
+    match req.onion.total_msat { Some(t) => t, None => forward_msat }
+}
+pub open spec fn policy_failure(p: TrampolineRoutingPolicy) -> Seq<u8> {
+    encode_spec(crate::messages::HtlcFailReason::TrampolineFeeOrExpiryInsufficient(p))
+}
+
+//@ fn htlc_manager::HtlcManager::handle_htlc#prefix
+//@ implicit [C06,C13]
+//@ ensures#early_answer_is_continue_untouched_or_self_hint_failure [C13]
+//    classification answers without waiting on anything and without touching the world
+      r is Some ==> (continue_untouched(*req, r->0) || r->0 is Fail)
+//@ ensures#no_side_effect [C13]
+//    no RPC, nothing stored, no state retained: the ghost world is unchanged on every path
+      *final(w) == *old(w)
+//@ ensures#plain_forward_continues [C13]
+      req.onion.short_channel_id is Some ==> (r is Some && continue_untouched(*req, r->0))
+//@ end
+
+//@ fn htlc_manager::HtlcManager::handle_htlc#gate
+//@ implicit [C06]
+//@ requires#inv
+      ps_inv(*old(payment_state), *old(g))
+//@ requires#held_total_fits_u64
+      sum_held(old(g).held) + req.htlc.amount_msat as int <= u64::MAX as int
+//@ ensures#inv [C06,C07,C03]
+      ps_inv(*final(payment_state), *final(g))
+//@ ensures#relative_expiry_below_policy_rejects_the_set [C04,C12,C07]
+      (req.htlc.cltv_expiry_relative < self.params.routing_policy.cltv_expiry_delta as i64) ==>
+          (final(payment_state).is_fail_requested && final(g).ready_q == old(g).ready_q)
+//@ ensures#declared_total_below_fee_rejects_the_set [C12,C07]
+      !fee_spec(self.params.routing_policy, declared_total(*req, forward_msat), trampoline.amount_msat) ==>
+          (final(payment_state).is_fail_requested && final(g).ready_q == old(g).ready_q)
+//@ ensures#conflicting_info_rejects_the_set [C07]
+      trampoline != old(payment_state).trampoline ==>
+          (final(payment_state).is_fail_requested && final(g).ready_q == old(g).ready_q)
+//@ ensures#first_rejection_carries_the_configured_policy [C12]
+      (old(g).fail_q.len() == 0 && !old(payment_state).is_fail_requested && trampoline == old(payment_state).trampoline
+        && ((req.htlc.cltv_expiry_relative < self.params.routing_policy.cltv_expiry_delta as i64)
+            || !fee_spec(self.params.routing_policy, declared_total(*req, forward_msat), trampoline.amount_msat)))
+      ==> (final(g).fail_q.len() == 1 && final(g).fail_q[0] is Fail
+           && final(g).fail_q[0]->failure_message@ == policy_failure(self.params.routing_policy))
+//@ ensures#only_fail_values_requested [C02]
+      forall|i: int| 0 <= i < final(g).fail_q.len() ==> (#[trigger] final(g).fail_q[i]) is Fail
+//@ ensures#htlc_is_held_or_answered_at_once [C06,C07]
+      (old(payment_state).resolution is Some ==> sender.fate() == old(payment_state).resolution)
+      && (old(payment_state).resolution is None ==>
+            final(g).held == old(g).held.push(HeldAbs { amount: req.htlc.amount_msat, expiry: req.htlc.cltv_expiry }))
+//@ end
